@@ -129,7 +129,7 @@ def main():
         d = os.path.join(VERIF, 'seeded', a.id)
         os.makedirs(d, exist_ok=True)
         for f in ('patch.diff', 'demo.py', 'notes.md'):
-            if os.path.exists(os.path.join(src, f)):
+            if os.path.exists(os.path.join(src, f)) and os.path.abspath(src) != os.path.abspath(d):
                 shutil.copy(os.path.join(src, f), os.path.join(d, f))
         meta = {'id': a.id, 'breaks_property': a.prop, 'needs_to_manifest': a.needs,
                 'confirmation': conf,
